@@ -1581,6 +1581,7 @@ func NewPriorityMutex() *PriorityMutex {
 }
 
 func (self *PriorityMutex) Lock() {
+	verifYield(verifPointBeforeLock)
 	if atomic.LoadUint32(&self.highPriority) != 0 {
 		self.highPriorityMutex.Lock()
 		self.highPriorityMutex.Unlock()
@@ -1603,6 +1604,7 @@ func (self *PriorityMutex) Lock() {
 
 func (self *PriorityMutex) Unlock() {
 	self.mutex.Unlock()
+	verifYield(verifPointAfterUnlock)
 }
 
 func (self *PriorityMutex) HighSetPriority() bool {
@@ -1648,6 +1650,7 @@ func (self *PriorityMutex) LowUnSetPriority() bool {
 }
 
 func (self *PriorityMutex) HighPriorityLock() {
+	verifYield(verifPointBeforeLock)
 	atomic.AddUint32(&self.highPriorityAcquireCount, 1)
 	self.mutex.Lock()
 }
@@ -1658,6 +1661,7 @@ func (self *PriorityMutex) HighPriorityUnlock() {
 		self.HighUnSetPriority()
 	}
 	self.mutex.Unlock()
+	verifYield(verifPointAfterUnlock)
 }
 
 func (self *PriorityMutex) LowPriorityLock() {
